@@ -54,6 +54,12 @@ func rtStore64(p *uint64, v uint64) { runtime.VerifStore64(p, v) }
 //go:norace
 func rtCas64(p *uint64, old, new uint64) bool { return runtime.VerifCas64(p, old, new) }
 
+const PointAfterWake = 99 // a goroutine woken inside WaitGroup.Wait, before it re-checks the counter
+
+func init() {
+	runtime.VerifSetAfterWake(func() { park(PointAfterWake, 0) })
+}
+
 // SetMapSeed fixes the start of every map iteration (-1 = stock behaviour).
 func SetMapSeed(s int64) { runtime.VerifSetMapSeed(s) }
 
@@ -88,6 +94,7 @@ var (
 	active  uint32 // 1 while an execution is under the scheduler's control
 	nslots  uint32
 	slots   [maxSlots]slot
+	schedGoid uint64
 	crashID uint32 // K(id) panics when id == crashID (engine C)
 	nPoints uint64 // K points passed (for enumeration)
 )
@@ -148,8 +155,8 @@ func park(id uint32, ncases uint32) {
 		return
 	}
 	g := rtGoid()
-	if isBanned(g) {
-		return
+	if g == rtLoad64(&schedGoid) || isBanned(g) {
+		return // the scheduler's own goroutine (harness oracle code) and left-over goroutines never park
 	}
 	s := findSlot(g)
 	if s == nil {
@@ -210,6 +217,8 @@ type Outcome struct {
 	Preempt    int
 	Contended  bool // some step found its thread blocked in the operation (real contention)
 	Survivors  []string
+	PanicClass string // a driver thread panicked (recovered): class and text
+	PanicText  string
 }
 
 type thr struct {
@@ -231,6 +240,8 @@ type Sched struct {
 	drivers []*thr
 	last    *thr
 	buf     []rtG
+	nextLid int
+	byLid   []*thr
 	out     Outcome
 	started time.Time
 }
@@ -255,6 +266,7 @@ func Run(x *vexp.X, opt Options, drivers ...func()) *Sched {
 	}
 	rtStore32(&nslots, 0)
 	runtime.VerifSetSelectBias(-1)
+	rtStore64(&schedGoid, rtGoid())
 	rtStore32(&active, 1)
 	started := make(chan uint64, len(drivers))
 	for i, d := range drivers {
@@ -264,8 +276,20 @@ func Run(x *vexp.X, opt Options, drivers ...func()) *Sched {
 			sl := claimSlot(g)
 			started <- g
 			park(uint32(i), 0) // initial point: the scheduler decides who starts
+			defer func() {
+				if os.Getenv("VERIF_NO_RECOVER") != "" {
+					rtStore32(&sl.state, stDone)
+					return
+				}
+				if e := recover(); e != nil {
+					c, t := vexp.PanicInfo(e)
+					if s.out.PanicClass == "" {
+						s.out.PanicClass, s.out.PanicText = c, t
+					}
+				}
+				rtStore32(&sl.state, stDone)
+			}()
 			d()
-			rtStore32(&sl.state, stDone)
 		}()
 		g := <-started
 		t := &thr{lid: i, goid: g, name: fmt.Sprintf("T%d", i)}
@@ -276,7 +300,9 @@ func Run(x *vexp.X, opt Options, drivers ...func()) *Sched {
 		s.thrs[g] = t
 		s.order = append(s.order, t)
 		s.drivers = append(s.drivers, t)
+		s.byLid = append(s.byLid, t)
 	}
+	s.nextLid = len(drivers)
 	s.loop()
 	return s
 }
@@ -328,19 +354,10 @@ func (s *Sched) settle() (blocked []*thr) {
 			}
 		}
 		if len(fresh) > 0 {
-			sort.Slice(fresh, func(i, j int) bool {
-				pi, pj := s.thrs[fresh[i].Parent], s.thrs[fresh[j].Parent]
-				if pi != nil && pj != nil && pi.lid != pj.lid {
-					return pi.lid < pj.lid
-				}
-				return fresh[i].Goid < fresh[j].Goid
-			})
 			for _, g := range fresh {
-				t := &thr{lid: len(s.order), goid: g.Goid, parent: g.Parent}
-				t.name = fmt.Sprintf("g%d", t.lid)
-				if p := s.thrs[g.Parent]; p != nil {
-					t.name = fmt.Sprintf("g%d<%s", t.lid, p.name)
-				}
+				// no logical id yet: short-lived helpers (e.g. per-channel workers) may or may not be
+				// observed, so ids are given only to goroutines that reach a scheduling point
+				t := &thr{lid: -1, goid: g.Goid, parent: g.Parent, name: "helper"}
 				s.world[g.Goid] = true
 				s.thrs[g.Goid] = t
 				s.order = append(s.order, t)
@@ -388,6 +405,24 @@ func (s *Sched) settle() (blocked []*thr) {
 			break
 		}
 		if quiet {
+			// goroutines that have reached their first scheduling point get the next logical ids,
+			// in creation order (goroutine ids are sequential under GOMAXPROCS=1)
+			var newly []*thr
+			for _, t := range s.order {
+				if !t.done && t.lid < 0 && t.slot != nil {
+					newly = append(newly, t)
+				}
+			}
+			sort.Slice(newly, func(i, j int) bool { return newly[i].goid < newly[j].goid })
+			for _, t := range newly {
+				t.lid = s.nextLid
+				s.nextLid++
+				t.name = fmt.Sprintf("g%d", t.lid)
+				if p := s.thrs[t.parent]; p != nil && p.lid >= 0 {
+					t.name = fmt.Sprintf("g%d<%s", t.lid, p.name)
+				}
+				s.byLid = append(s.byLid, t)
+			}
 			return blocked
 		}
 		if iter%64 == 63 {
@@ -529,8 +564,20 @@ func biasDoc(bias, cs int) string {
 	return fmt.Sprintf(" [select bias %d -> clause %d]", bias, cs)
 }
 
+// Doc registers a description for a hand-placed point (harness code uses ids 100..999).
+func Doc(id uint32, text string) {
+	if pointDocs == nil {
+		pointDocs = map[uint32]string{}
+		loadPoints()
+	}
+	pointDocs[id] = text
+}
+
 func (s *Sched) pointDoc(id uint32) string {
-	if id < 1000 {
+	if id == PointAfterWake {
+		return "woken-inside-WaitGroup.Wait"
+	}
+	if id < 100 {
 		return fmt.Sprintf("start(%d)", id)
 	}
 	if s.opt.PointDoc != nil {
@@ -620,8 +667,8 @@ func (s *Sched) TraceString() string {
 	var sb strings.Builder
 	for i, st := range s.out.Trace {
 		name := fmt.Sprintf("t%d", st.Thread)
-		if st.Thread < len(s.order) {
-			name = s.order[st.Thread].name
+		if st.Thread >= 0 && st.Thread < len(s.byLid) {
+			name = s.byLid[st.Thread].name
 		}
 		fmt.Fprintf(&sb, "%d:%s@%s%s ", i+1, name, s.pointDoc(st.Point), biasDoc(st.Bias, st.Case))
 	}
